@@ -138,6 +138,28 @@ def _parse_make_output(text):
     return {"units": units, "archives": archives, "links": links}
 
 
+def _refresh_makefile(root):
+    """the build description (Makefile.am / Makemodule.am / configure.ac) is newer than the generated Makefile: let the
+    tree's own rule regenerate it (automake + config.status), exactly what the next plain `make` would do first"""
+    mk = os.path.join(root, "Makefile")
+    try:
+        t = os.path.getmtime(mk)
+    except OSError:
+        return
+    newer = False
+    for d, dirs, fs in os.walk(root):
+        if "/.git" in d or d.endswith("/.git"):
+            continue
+        for f in fs:
+            if f in ("Makemodule.am", "Makefile.am", "configure.ac") and os.path.getmtime(os.path.join(d, f)) > t:
+                newer = True
+    if not newer:
+        return
+    r = subprocess.run(["make", "Makefile"], cwd=root, capture_output=True, text=True)
+    if r.returncode != 0:
+        raise AnalysisBroken("the build description changed and `make Makefile` failed: " + r.stderr[-800:])
+
+
 def compdb(root=None):
     root = root or repo_root()
     os.makedirs(CACHE, exist_ok=True)
@@ -147,10 +169,11 @@ def compdb(root=None):
             db["source"] = "fallback table (no Makefile in tree)"
             return db
         raise AnalysisBroken("no Makefile in %s and no fallback table" % root)
-    key = _makefile_key(root)
-    path = os.path.join(CACHE, "compdb-%s.json" % key[:24])
     with open(os.path.join(CACHE, "compdb.lock"), "w") as lk:
         fcntl.flock(lk, fcntl.LOCK_EX)
+        _refresh_makefile(root)
+        key = _makefile_key(root)
+        path = os.path.join(CACHE, "compdb-%s.json" % key[:24])
         if os.path.exists(path):
             db = json.load(open(path))
             db["source"] = "make -n -B all-am (cached command list)"
